@@ -62,6 +62,18 @@ type FuncContract struct {
 	Reach     bool // require reachability canary
 	Params    []string
 	Checks    []string
+	ErrPanics bool // explicit panics are allowed iff the panic value is an error (util.Recover turns those into errors)
+	Swept     bool // synthesised by a sweep directive (safety obligations only)
+}
+
+// Sweep puts every function of the given name in the packages below a path prefix under an empty contract: only the
+// implicit safety obligations (bounds, nil, make sizes, division, type assertions, panic values) are generated.
+type Sweep struct {
+	PkgPrefix string
+	Name      string
+	Props     []string
+	File      string
+	Line      int
 }
 
 // SpecFn is a spec function / predicate: a named expression over parameters.
@@ -118,13 +130,14 @@ type File struct {
 	Ghosts   map[string]string
 	Regexes  []*RegexDecl
 	Structs  []*StructDecl
+	Sweeps   []*Sweep
 }
 
 var keywords = map[string]bool{
 	"func": true, "trusted": true, "props": true, "mode": true, "requires": true, "ensures": true,
 	"modifies": true, "loop": true, "at-call": true, "at-store": true, "inline": true, "pure": true,
 	"spec": true, "axiom": true, "guarded_by": true, "monitor": true, "census": true, "panics": true,
-	"why:": true, "regexlang": true, "recovers": true, "closure-only": true, "params": true, "ghostfield": true, "ufn": true, "checks": true, "nobody": true, "ghost": true, "maypanic": true, "splitpaths": true, "reach": true,
+	"why:": true, "regexlang": true, "recovers": true, "closure-only": true, "params": true, "ghostfield": true, "ufn": true, "checks": true, "nobody": true, "ghost": true, "maypanic": true, "splitpaths": true, "reach": true, "sweep": true, "errpanics": true,
 }
 
 type rawLine struct {
@@ -219,6 +232,22 @@ func ParseFile(filename, pkg, src string) (*File, error) {
 			cur.NoBody = true
 		case "maypanic":
 			cur.MayPanic = true
+		case "errpanics":
+			cur.ErrPanics = true
+		case "sweep":
+			// sweep <package path prefix> <function or method name> ; props C05
+			main, props, _ := strings.Cut(rest, ";")
+			mf := strings.Fields(main)
+			if len(mf) != 2 {
+				return nil, errf("sweep needs <package path prefix> <name>")
+			}
+			sw := &Sweep{PkgPrefix: mf[0], Name: mf[1], File: filename, Line: r.line}
+			pf := strings.Fields(props)
+			if len(pf) > 1 {
+				sw.Props = pf[1:]
+			}
+			f.Sweeps = append(f.Sweeps, sw)
+			cur = nil
 		case "splitpaths":
 			cur.SplitPaths = true
 		case "reach":
